@@ -1165,7 +1165,7 @@ Proof.
   - auto.
   - unfold task_step. destruct (nth_error (arbs s) j); auto. destruct (ph a); auto. destruct (lq a); auto. destruct (tkind t); auto.
   - unfold sys_step. destruct (alive s); auto. destruct (sysq s) as [|[c0|r|d] q]; cbn; auto. now rewrite H.
-  - unfold sys_ret. destruct (alive s); auto. destruct (exitc s); auto.
+  - unfold sys_ret. destruct (alive s); auto. rewrite H. cbn. auto.
   - unfold drop_step. destruct (nth_error (arbs s) j); auto. destruct (ph a); auto.
 Qed.
 
@@ -1205,3 +1205,103 @@ Proof.
   { destruct (issued (run ops sched)) eqn:I; auto. destruct (g_iss _ G I) as (_ & B & _). congruence. }
   destruct (g_doom _ G k a H Hp Is) as [D|(_ & D & _)]; [auto | congruence].
 Qed.
+
+(* ---- the variant: position of the first Stop in the channel ---- *)
+Fixpoint stop_pos (l : list cmd) : nat :=
+  match l with
+  | [] => 0
+  | Stop :: _ => 0
+  | _ :: t => S (stop_pos t)
+  end.
+
+(* while an arbiter is Running and its channel is non-empty the Runner label is enabled; if a Stop is
+   queued every Runner step brings it strictly closer, and at distance 0 the loop ends *)
+Lemma runner_variant : forall a, ph a = Running -> has_stop (chan a) = true ->
+  runner a <> a /\
+  ((stop_pos (chan a) = 0 /\ ph (runner a) = Ended) \/
+   (ph (runner a) = Running /\ has_stop (chan (runner a)) = true /\ S (stop_pos (chan (runner a))) = stop_pos (chan a))).
+Proof.
+  intros a P H. unfold runner. rewrite P. destruct (chan a) as [|[|t] c] eqn:C; cbn in *; try discriminate.
+  - split; [|left; auto]. intros X. apply (f_equal ph) in X. cbn in X. congruence.
+  - split; [|right; auto]. intros X. apply (f_equal chan) in X. cbn in X. rewrite C in X.
+    apply (f_equal (@length _)) in X. cbn in X. lia.
+Qed.
+
+Lemma runner_enabled : forall a, ph a = Running -> chan a <> [] -> runner a <> a.
+Proof.
+  intros a P H. unfold runner. rewrite P. destruct (chan a) as [|[|t] c] eqn:C; [congruence| |].
+  - intros X. apply (f_equal ph) in X. cbn in X. congruence.
+  - intros X. apply (f_equal chan) in X. cbn in X. rewrite C in X. apply (f_equal (@length _)) in X. cbn in X. lia.
+Qed.
+
+(* nobody else moves the first Stop away: sends append behind it, tasks do not touch the channel *)
+Lemma stop_pos_app : forall l c, has_stop l = true -> stop_pos (l ++ [c]) = stop_pos l /\ has_stop (l ++ [c]) = true.
+Proof.
+  induction l as [|[|x] l IH]; intros c H; cbn in *; try discriminate; auto.
+  destruct (IH c H) as [A B]. rewrite A. auto.
+Qed.
+
+Lemma variant_push : forall c a, has_stop (chan a) = true ->
+  stop_pos (chan (push c a)) = stop_pos (chan a) /\ has_stop (chan (push c a)) = true.
+Proof.
+  intros c a H. unfold push. destruct (is_dropped (ph a)); cbn; auto. now apply stop_pos_app.
+Qed.
+
+Lemma variant_start : forall a, chan (start_task a) = chan a.
+Proof. intros. unfold start_task. destruct (ph a); auto. destruct (lq a); auto. Qed.
+
+(* under the fairness assumption (a watchdog only fires at quiescence) a stopping arbiter has ended and its
+   thread has finished, so join returns: the model never logs a hang for it *)
+Lemma stopping_quiescent_dropped : forall s k a, quiescent s = true -> nth_error (arbs s) k = Some a ->
+  stopping a -> ph a = Dropped.
+Proof.
+  intros s k a Q E St. destruct (ph a) eqn:P; auto; exfalso;
+    apply (quiescent_not_stopping s k a Q E); auto; congruence.
+Qed.
+
+Lemma join_returns : forall s k ops' a, rest s = OJoin k :: ops' -> nth_error (arbs s) k = Some a -> stopping a ->
+  step s LCoord = s \/ olog (step s LCoord) = olog s ++ [RJoined].
+Proof.
+  intros s k ops' a R E St. cbn [step]. unfold coord. rewrite R. unfold wait_op. rewrite E.
+  destruct (ph a) eqn:P; cbn; auto; destruct (quiescent s) eqn:Q; auto;
+    rewrite (stopping_quiescent_dropped s k a Q E St) in P; discriminate.
+Qed.
+
+(* covered arbiters are joinable after a direct stop: combination of the two *)
+Lemma join_after_exit_run : forall ops sched k ops' a,
+  let s := run ops sched in
+  rest s = OJoin k :: ops' -> nth_error (arbs s) k = Some a -> a_pre a = true -> exitc s <> None ->
+  step s LCoord = s \/ olog (step s LCoord) = olog s ++ [RJoined].
+Proof.
+  intros ops sched k ops' a s R E Hp X. eapply join_returns; eauto. eapply stops_all_run; eauto.
+Qed.
+
+(* ---- deregistration ---- *)
+Lemma dereg_sent : forall s k a, nth_error (arbs s) k = Some a -> ph a = Ended -> alive s = true ->
+  sysq (step s (LDrop k)) = sysq s ++ [Deregister k] /\
+  (exists a', nth_error (arbs (step s (LDrop k))) k = Some a' /\ ph a' = Dropped).
+Proof.
+  intros s k a E P A. cbn [step]. unfold drop_step. rewrite E, P. cbn. unfold sys_send. rewrite A. split; auto.
+  rewrite nth_upd_same, E. cbn. eauto.
+Qed.
+
+Lemma dereg_processed : forall s k q, alive s = true -> sysq s = Deregister k :: q ->
+  ~ In k (reg (step s LSys)) /\ arbs (step s LSys) = arbs s /\ exitc (step s LSys) = exitc s.
+Proof.
+  intros s k q A Q. cbn [step]. unfold sys_step. rewrite A, Q. cbn. split; auto.
+  intros X. apply in_remove_nat in X. destruct X. congruence.
+Qed.
+
+(* stopping an arbiter that is not registered, or whose receiver is gone, is a no-op *)
+Lemma stop_all_unregistered : forall ids l k, ~ In k ids -> nth_error (stop_all ids l) k = nth_error l k.
+Proof.
+  intros ids l k H. rewrite stop_all_nth. rewrite (proj1 (count_occ_not_In Nat.eq_dec ids k) H). cbn.
+  destruct (nth_error l k); auto.
+Qed.
+
+Lemma stop_gone_noop : forall a, ph a = Dropped -> push Stop a = a.
+Proof. intros. now apply push_dropped. Qed.
+
+(* an ended arbiter starts nothing any more, whatever is sent to it *)
+Lemma ended_starts_nothing : forall a, ph a <> Running -> start_task a = a /\ runner a = a.
+Proof. intros a H. unfold start_task, runner. destruct (ph a); try congruence; auto. Qed.
